@@ -2914,7 +2914,9 @@ def cbcheck(
             rb_norm = True
 
     if rb_norm:
-        rb_normalizer = rbg[bref]
+        # `rbg` has only the b-set rows (in `bset` order) while `bref`
+        # is relative to the full matrices:
+        rb_normalizer = rbg[np.searchsorted(bset, bref)]
         ttl = (
             "Stiffness-based coordinates relative to `uref` "
             "because of normalization (`rb_norm`):\n "
